@@ -230,6 +230,26 @@ def run_case(rec, spec, variant, rng, oracles=("C01", "C02", "C05", "C06", "C12"
                 eq = None
             if eq is False and not d:
                 rec.count("c12:equal-content-compares-unequal(C14-territory)")
+        # decode direction, a writer that emits the segment records in another order: the layout fixes each record
+        # and that the data follow in table order - frames inside the runs carry their value, all others are NaN
+        if kind in lib.RLE_KINDS and ("C06" in oracles or "C05" in oracles):
+            xu = rc.encode_block_unsorted_segments(spec, rng)
+            if xu != xr:
+                rec.count("oracle:C06.decode-unsorted-segment-table")
+                try:
+                    bu, used_u = lib.dec(kind, spec["format"], xu, b"", b"\xa5")
+                    vu = lib.view(bu)
+                except Exception as e:
+                    V("C06", "layout-conformant-bytes-rejected",
+                      f"{type(e).__name__}: {e} decoding a block whose segment records are not in frame order", exc=e)
+                    vu = None
+                if vu is not None:
+                    d = rc.spec_diff({k_: v_ for k_, v_ in spec.items() if k_ != "map"}, {k_: v_ for k_, v_ in vu.items() if k_ != "map"})
+                    if d:
+                        V("C06", "decode-differs-from-layout", "(segment records not in frame order) " + d)
+                        V("C05", "gap-frame-not-NaN-or-present-frame-lost", "(segment records not in frame order) " + d)
+                    if used_u != len(xu):
+                        V("C06", "conformant-bytes-not-consumed-exactly", f"consumed {used_u} of {len(xu)} (unsorted segment records)")
 
 
 
